@@ -55,6 +55,17 @@ CHECKS["C10"] = dict(
          "replay enumerator over several tasks sharing one evaluator."),
    note=TB + "The timeout branch is modelled but neither exercised nor covered by a theorem.  Tasks are sequential on one solver and the first step is next().  A stub replay enumerator is used; program_probability and the time statistic are not compared.  Output equality is modelled on typed outputs.  RestartPBESolver is not modelled (its test module is a collection error in the baseline).",
    design="5/C10")
+CHECKS["C14"] = dict(
+   technique="Coq proof of the instantiate_polymorphic_types model against a declarative instance specification + extracted-model/implementation correspondence",
+   text=("Theorems (Props/C14.v, closed under the global context), for every well-formed syntax (distinct names, one annotation per variable name, "
+         "concrete annotations, sums with >= 2 alternatives, one arity per generic name) and every bound: the result has no polymorphic or sum type "
+         "(C14_no_poly_no_sum); every result is an admissible ground instance of the same-named declared primitive (C14_sound); every admissible "
+         "instance over the documented universe within the bound is present, nothing twice (C14_complete_once); a second call changes nothing "
+         "(C14_idempotent).  C14_sound/complete_once/idempotent_refuted exhibit counterexamples for the code as it was before the two fix: commits "
+         "(unit argument not first, duplicates).  Each run re-checks the proofs and compares the extracted model with "
+         "DSL.instantiate_polymorphic_types on generated syntaxes x bounds 0-6, after one and two calls, as sorted lists, under several hash seeds."),
+   note=TB + "Python sets are modelled as duplicate-free lists under structural equality (valid for consistent annotations; hash collisions ignored); list 'in'/'remove' are modelled by the Python type equality ty_eqb_py.  'Base types' are those collected by decompose_type (types named only inside annotations are excluded).  The bound applies to the substituted type.  Sums with fewer than 2 alternatives, inconsistent annotations and variables inside annotations are outside the theorems' hypotheses; the generator stays inside them and the harness asserts the model's wf flag.",
+   design="5/C14")
 NOT_YET = {}
 def main():
     props = [json.loads(l) for l in open(os.path.join(V, "properties.jsonl"))]
